@@ -257,6 +257,24 @@ class Ctx:
                 return
         self.violations.append(v)
 
+    def corpus(self, names):
+        """witnesses of repaired defects (known_findings.json `fixed:` entries): must pass on the current tree"""
+        env = dict(os.environ)
+        env.update({"PYTHONPATH": lib.REPO, "PYTHONDONTWRITEBYTECODE": "1", "PYTHONHASHSEED": "0"})
+        os.makedirs("/tmp/lnn_verif_scratch", exist_ok=True)
+        res = {}
+        for nm in names:
+            path = os.path.join(VERIF, "harness", "corpus", nm)
+            p = subprocess.run([lib.PY, path], cwd="/tmp/lnn_verif_scratch", env=env, stdout=subprocess.PIPE, stderr=subprocess.STDOUT, text=True, timeout=600)
+            out = [l for l in p.stdout.strip().split("\n") if "WARNING" not in l]
+            ok = bool(out) and out[-1].strip() == "PASS"
+            res[nm] = "PASS" if ok else "FAIL"
+            if not ok:
+                self.violations.append({"property": self.pid, "monitor": "corpus", "scenario": f"harness/corpus/{nm}", "hashseed": 0,
+                                        "expected": "witness of a repaired defect passes", "observed": "\n".join(out[-6:]), "site": None})
+        self.cov["corpus"] = res
+        self.cov["evaluations"] += len(names)
+
     def finish(self, level="proof", prop_res=None, build_st=None, extra_cov=None, rule=""):
         os.makedirs(EVID, exist_ok=True)
         os.makedirs(REPLAYS, exist_ok=True)
